@@ -160,6 +160,38 @@ def r1(ctx, R):
                 R.bad(fi, pushes[0], "the push is reachable without evaluating the depth limit")
 
 
+@rule("C05.R6", "C05", "FLOW", "the configured recursion limit survives every replacement of the call stack", min_instances=2)
+def r6(ctx, R):
+    """Every construction of a CallStack / TraceableCallStack outside the executor's __init__ (tracing
+    switched on or off) passes `maxdepth=<the current stack>.maxdepth`; the constructors store it."""
+    n = 0
+    for f in ctx.repo.all_funcs(modules=["modelx.core.system"]):
+        for c in q.calls(f, name=("CallStack", "TraceableCallStack")):
+            if f.name == "__init__":
+                continue
+            n += 1
+            R.inst("%s: `%s` keeps the limit" % (f.short, norm(c)[:50]))
+            md = None
+            for k in c.keywords:
+                if k.arg == "maxdepth":
+                    md = k.value
+            if md is None and len(c.args) > 1:
+                md = c.args[1]
+            if md is None or not q.anorm(f, md).endswith("callstack.maxdepth"):
+                R.bad(f, c, "the call stack is replaced by one with the default depth limit: after tracing was switched "
+                            "on or off a chain longer than the limit set by set_recursion no longer raises "
+                            "DeepReferenceError (and acquires values)")
+    R.need(n >= 2, "expected >=2 call stack replacements, found %d" % n)
+    for spec in ("CallStack.__init__", "TraceableCallStack.__init__"):
+        fi = ctx.func(spec)
+        R.inst("%s stores / forwards maxdepth" % spec)
+        ok = any(norm(st.value) == "maxdepth" for st, t in q.attr_writes(fi, attr="maxdepth", recv="self")) or \
+            any(any(norm(a) == "maxdepth" for a in c.args) or any(norm(k.value) == "maxdepth" for k in c.keywords)
+                for c in q.calls(fi, name="__init__"))
+        if not ok:
+            R.bad(fi, fi.node, "the depth limit given to the constructor is dropped", stmt="maxdepth")
+
+
 @rule("C05.R2", "C05", "PAIR", "is_executing reset on every exit; error fields cleared before the run",
       min_instances=6)
 def r2(ctx, R):
@@ -239,7 +271,7 @@ def _stack_ops(fi):
 
 
 @rule("C05.R3", "C05", "SIB", "pop and rollback undo the same stack components; rollback only removes",
-      min_instances=8, also=("C02", "C08", "C09"))
+      min_instances=8, also=("C02", "C06", "C08", "C09"))
 def r3(ctx, R):
     """CallStack.pop and .rollback both: deque.pop(self), idxstack.pop(), counter -= 1,
     drain refstack under `refstack[-1][0] == self.counter` evaluated after the decrement;
